@@ -130,8 +130,8 @@ def build(tier):
     targets += [Target('histogram_update_i64', [upd_i, updop_i()], 'specs/C20/update.h', replace=['update_op'], defines=['NV_ELEM=int64_t']),
                 Target('update_op_i64', [updop_i()], 'specs/C20/update.h', defines=['NV_ELEM=int64_t']),
                 Target('update_bin_i64', [updbin_i], 'specs/C20/update.h', defines=['NV_ELEM=int64_t'])]
-    # narrow integer sample types (int8_t, int32_t; int16_t in the thorough tier): the same contracts
-    for tag, cxx, cty in [('i8', 'signed char', 'int8_t'), ('i32', 'int', 'int32_t')] + ([('i16', 'short', 'int16_t')] if tier == 'thorough' else []):
+    # narrow integer sample types (int16_t, int32_t; int8_t in the thorough tier: byte-sized elements cost CBMC 3-5x more): the same contracts
+    for tag, cxx, cty in [('i16', 'short', 'int16_t'), ('i32', 'int', 'int32_t')] + ([('i8', 'signed char', 'int8_t')] if tier == 'thorough' else []):
         mk_upd = lambda cxx=cxx: Fn('histogram_update', TU, 'update', flt='nano::histogram_t', select=targs(cxx + ' *'), **hk)
         mk_op = lambda cxx=cxx: Fn('update_op', TU, 'update', flt='nano::histogram_t', select=targs(cxx + ' *'), lambda_index=0, optional=True, **hk_nolam)
         mk_bin = lambda cxx=cxx: Fn('update_bin', TU, 'update_bin', flt='nano::histogram_t', select=targs(cxx + ' *'), **hk)
@@ -155,6 +155,7 @@ def build(tier):
     update_fns = lambda cxx: [Fn('histogram_update', TU, 'update', flt='nano::histogram_t', select=targs(cxx + ' *'), **hk),
                               Fn('update_op', TU, 'update', flt='nano::histogram_t', select=targs(cxx + ' *'), lambda_index=0, optional=True, **hk_nolam)]
     targets += ext.ctor_targets(tier, update_fns)
+    targets += ext.factory_targets(tier, update_fns)
     pv, pf = percentile_vcs()
     return {
         'targets': targets, 'vcs': pv, 'functions': pf, 'bounded': [tpos],
